@@ -140,6 +140,15 @@ def run(ctx):
                         continue
                     cases.append(ec.enforce_case([('p:x', leaf)], {'by': 'name', 'name': 'p:x'}, {}, {'a': stop, 'roles': []},
                                                  dflt=('opt', None), want='c14'))
+    # a path never reaches INTO a scalar: attribute names of Python numbers / booleans / strings as the
+    # segment after one, with right sides that spell what such an attribute would hold
+    for attr in ('real', 'imag', 'numerator', 'denominator', 'real.real', '__class__.__name__', 'upper', 'keys'):
+        for stop in (5, True, 1.5, 0, 'abc'):
+            for rhs in ('5', '0', '1', 'True', '1.5', 'int', 'bool', 'ABC'):
+                if q and (len(attr) + len(rhs) + len(str(stop))) % 3 == 0:
+                    continue
+                cases.append(ec.enforce_case([('p:x', ev.generic('a.' + attr, rhs))], {'by': 'name', 'name': 'p:x'}, {}, {'a': stop, 'roles': []},
+                                             dflt=('opt', None), want='c14'))
     bad = ec.judge(ctx, cases)
     for c in bad:
         o = c['obs']
